@@ -65,6 +65,20 @@ func c12Eval(count uint32, hs []h32, ps []*chainhash.Hash, flags []byte) (string
 	if pb.BadTree() {
 		return why, fmt.Errorf("ExtractMatches succeeded but BadTree() is true")
 	}
+	// extracting again from the same object must not produce a different story: it either fails or
+	// reproduces the same root and the same match list
+	if again := pb.ExtractMatches(); again != nil {
+		gm2, gi2 := pb.GetMatches(), pb.GetItems()
+		if h32(*again) != root || len(gm2) != len(matches) || len(gi2) != len(matches) {
+			return why, fmt.Errorf("ExtractMatches(count=%d, flags %x) called a second time on the same object returns root %x with %d hashes / %d positions; "+
+				"independent evaluation: root %x, %d matches", count, flags, again[:4], len(gm2), len(gi2), root[:4], len(matches))
+		}
+		for i, m := range matches {
+			if h32(*gm2[i]) != m.Hash || gi2[i] != m.Pos {
+				return why, fmt.Errorf("second ExtractMatches call: match %d differs from the independent evaluation", i)
+			}
+		}
+	}
 	return why, nil
 }
 
